@@ -70,3 +70,19 @@ Proof.
               (CAssignOp v None e) s code s' v e Hl eq_refl m m' Hw Hb Hv Hnn Hf Hs) as [Hrun _].
   destruct (Hrun [] None) as [cmp' Hr]. rewrite app_nil_r in Hr. rewrite Hr. reflexivity.
 Qed.
+
+Theorem count_jump_correct_gen :
+  forall libm avail rty lty diff time mask k v op l jt s code s' m n,
+  (forall op t, sigil_of_unop op <> None -> avail (KUnOp op t) = false) ->
+  lower_count_jump avail rty lty time mask k v op l jt s = Ok (code, s') ->
+  label_ok l (g s) ->
+  eval_s gen_optable libm rty lty diff (te s) m (var_expr v) = Ok (VInt n) ->
+  run_fwd gen_optable libm lty code Exec m None =
+    Ok (if xorb (count_taken op (wrap32 (n - 1))) (is_unless k)
+        then RJump l jt (update m (v_id v) (VInt (wrap32 (n - 1))))
+        else RFall (update m (v_id v) (VInt (wrap32 (n - 1))))).
+Proof.
+  intros libm avail rty lty diff time mask k v op l jt s code s' m n Hns Hl Hlab Hv.
+  pose proof (count_jump_sound gen_optable libm avail rty lty diff time mask Hns k v op l jt s code s' m n Hl Hlab Hv [] None) as H.
+  rewrite app_nil_r in H. rewrite H. destruct (xorb _ _); reflexivity.
+Qed.
